@@ -370,6 +370,10 @@ def long_bad_words():
 LONG_BAD = long_bad_words()
 for _k in ('time', 'cmp32', 'cmp64', 'u32', 'size', 'types', 'perm'):
     BADWORDS[_k] = BADWORDS[_k] + ["'abc def'", '"x y"', "'a)b'", '"q\tr"'] + ['qq', 'xyz', 'xy9', 'xyz,f', 'zzzz', 'Q_', 'qé', 'é', '€uro', 'q,q', "'x", '"k', "'", '"', "'q\"", 'x\'y'] + LONG_BAD
+# words that START like a signed comparison and are not one (a forgotten argument followed by the next primary or
+# operator, a doubled sign): the message must still quote the whole word
+for _k in ('time', 'cmp32', 'cmp64', 'size'):
+    BADWORDS[_k] = BADWORDS[_k] + ['+big', '-x', '--3', '-', '+', '+-1', '-+2', '++5', '-print', '-o', '+k', '-@', '+é', "-'q'"]
 VALID_PRIMS = ['-true', '-name a', '-uid 5', '-type f', '-size +1k', '-print', '-empty']
 
 
@@ -503,6 +507,21 @@ def gen_options(tier, rnd):
         else:
             # compile request: the scan call must use the thread count the options carry
             lines.append('C %s %s #grp=o%d #role=var #opts=%s' % (hx(layout(variant)), hx('/dev/x'), g, opts))
+    # options ONLY, behind, between and in front of every kind of blank run (trailing blanks included): the tree is
+    # -true and the options are honoured
+    for gi, (ws, o) in enumerate([(['-depth'], '1_-'), (['-threads', '8'], '0_8'), (['-depth', '-threads', '2'], '1_2'),
+                                  (['-threads', '3', '-depth', '-threads', '5'], '1_5'), (['-threads', '0'], '0_0')]):
+        lines.append('P %s #grp=oo%d #role=base' % (hx('-true'), gi))
+        k = 0
+        for lb in ['', ' ', '\t', '\n ']:
+            for tb in ['', ' ', '\n', '\t ', '  ', '\r\n']:
+                for sep in [' ', '  ', '\t']:
+                    k += 1
+                    text = lb + sep.join(ws) + tb
+                    if k % 3 == 0:
+                        lines.append('C %s %s #grp=oo%d #role=var #opts=%s' % (hx(text), hx('/dev/x'), gi, o))
+                    else:
+                        lines.append('P %s #grp=oo%d #role=var #opts=%s' % (hx(text), gi, o))
     # state left behind by a REJECTED input must not leak into the next parse (same process, same thread)
     for bad, good, opts in [('( -name a -threads 7 -depth', '-name b', '0_-'), ('-name a -threads 9 -o', '-threads 2 -name b', '0_2'),
                             ('-depth -name a )', '-name c', '0_-'), ('-name a -depth -bogus', '-name d', '0_-'),
